@@ -254,6 +254,18 @@ def run(F, S, R, tier):
             R.bad("whocalls/unchecked/anchor-lost", "expected >=3 CKBProtocolHandler::received bodies, found %d" % n, [])
     R.guard("whocalls/unchecked", handlers)
 
+    def unchecked_everywhere():
+        # the decoders the handlers delegate to are covered too: in the crates that receive peer bytes nothing builds an unchecked reader
+        # except the three frozen sites that re-wrap bytes this node has itself just built or already verified
+        allowed = {
+            r"^ckb_network::protocols::discovery::protocol::DiscoveryMessage::encode$": "wraps bytes built by this node",
+            r"^ckb_sync::utils::(item_name|message_name)$": "names a message that was already verified by the handler",
+        }
+        K.whocalls(R, "whocalls/unchecked-decoders", F, r"(Reader|Entity)::new_unchecked$|from_slice_should_be_ok$|from_compatible_slice_should_be_ok$", allowed,
+                   crates=["ckb_sync", "ckb_network", "ckb_light_client_protocol_server", "ckb_network_alert", "ckb_block_filter"], min_sites=3,
+                   what="peer-facing crates never construct an unchecked molecule reader (a malformed field would panic in an accessor)")
+    R.guard("whocalls/unchecked-decoders", unchecked_everywhere)
+
 
 def _mentions(rv, local):
     k = rv.get("k")
